@@ -1463,6 +1463,12 @@ def f_diag(v, k=0):
 
 
 def f_einsum(subs, *ops, **kw):
+    if len(ops) == 1 and isinstance(ops[0], SymArray) and "," not in subs:
+        # single-operand einsum (diagonal / transpose views): numpy returns a VIEW, which callers write through
+        r = numpy.einsum(subs, raw(ops[0]))
+        if isinstance(r, _nd) and r.ndim:
+            return SymArray(r, ops[0]._vd)
+        return r
     ops = [_sa(o) for o in ops]
     if all(o.is_concrete() for o in ops):
         return box(numpy.einsum(subs, *[unbox(o) for o in ops]))
